@@ -231,6 +231,7 @@ func runC10(c *Ctx) {
 		blk *ssa.BasicBlock
 		v   *ana.Term
 		at  ssa.Instruction
+		via *ana.Edge // one case of a merged return: the selecting edge
 	}
 	var sites []vsite
 	for _, ci := range ana.CallsTo(fn, "builtin.append") {
@@ -248,15 +249,22 @@ func runC10(c *Ctx) {
 				if ke.Panic || len(ke.Results) != 2 || !key.b.Of(ke.Results[1], ke.Instr).Is("nil") {
 					continue
 				}
-				sites = append(sites, vsite{key, ke.Instr.Block(), key.b.Of(ke.Results[0], ke.Instr), ke.Instr})
+				sites = append(sites, vsite{key, ke.Instr.Block(), key.b.Of(ke.Results[0], ke.Instr), ke.Instr, ke.Via})
 			}
 			continue
 		}
-		sites = append(sites, vsite{site{fn, b}, ci.Block(), v, ci})
+		sites = append(sites, vsite{site{fn, b}, ci.Block(), v, ci, nil})
 	}
 	var parseCall *ssa.Call
 	for _, vs := range sites {
 		sb, sfn, blk, v, pos := vs.s.b, vs.s.fn, vs.blk, vs.v, c.ipos(vs.at)
+		via := vs.via
+		mustPass := func(fn *ssa.Function, blk *ssa.BasicBlock, edges []ana.Edge) bool { // edge-aware for merged returns
+			if via != nil {
+				return edgeMustPass(fn, *via, edges)
+			}
+			return !ana.ReachableAvoiding(fn, edges)[blk] && len(edges) > 0
+		}
 		hardPats := []string{"bin<>>(len(load(iaddr(" + mt + ", 2))), 0)", "bin<!=>(len(load(iaddr(" + mt + ", 2))), 0)", "bin<!=>(load(iaddr(" + mt + ", 2)), \"\")"}
 		softPats := []string{"bin<<=>(len(load(iaddr(" + mt + ", 2))), 0)", "bin<==>(len(load(iaddr(" + mt + ", 2))), 0)", "bin<==>(load(iaddr(" + mt + ", 2)), \"\")", "bin<<=>(len(" + mt + "), 2)"}
 		// v + 2^31 equals v | 2^31 for v < 2^31, which the 31-bit parse (C10.base.bitsize31) guarantees
